@@ -46,6 +46,15 @@ CHECKS.update({
    note="Trusted base: the driver's recover()/snapshot logic, reflect.DeepEqual, the Go race detector. Only types that have a generated method are judged for 'unchanged on error'. The recorded panic (null into a struct with typed additionalProperties) is recognised by its exact message on a document containing null."),
 })
 
+CHECKS.update({
+ "C12": dict(cat="exploration", tech="relational runtime monitor over real CLI runs: output fingerprints across repeated processes, key-order permutations, relocation; concurrent independent Generators under the Go race detector",
+   text="Held on every execution observed: per case 8 (thorough 32) separate processes, 4 (16) key-order permutations of every object of the input, one relocated run and 24 goroutine-runs of independent Generators in one -race process must all produce byte-identical files, names, stdout and exit status; cases have >=10 members per map, several mapping flags and names that tie under coarser comparisons.", ref="§4 C12",
+   note="Trusted base: SHA-256 fingerprints of the sandbox tree, the Go race detector. Map-order leaks are detected probabilistically (a two-way leak escapes N runs with probability 2^-(N-1))."),
+ "C13": dict(cat="exploration", tech="relational runtime monitor over real CLI runs: byte comparison of the outputs for re-spelled renderings of the same schema AST",
+   text="Held on every execution observed: each schema is rendered in a base spelling and in sampled combinations of JSON / three YAML styles (incl. unquoted numeric/boolean-looking keys) x $id/id x $defs/definitions x pointer prefix (any letter case) x type string/list x {}/true x dependentSchemas/dependencies; all CLI outputs must be byte-identical to the base's (the output is made to depend on the id through --schema-root-type).", ref="§4 C13",
+   note="Trusted base: the harness's YAML writer (JSON-style double-quoted scalars; bare form only for plain-safe or canonical numeric/boolean keys). dependentSchemas/dependencies have no effect on generation, so a broken fallback there is unobservable."),
+})
+
 NOT_YET = {}
 
 def main():
